@@ -14,9 +14,12 @@ import (
 func init() { register("C01", checkC01) }
 
 func checkC01(p *Prog, r *Report) {
+	r.rule("C01.type-lookup: Schema.GetType / HasType find a type by one exact equality test between a type's Name and the requested name and call nothing else (the comparison AddType uses to keep names unique)")
+	checkTypeLookup(p, r, "C01")
 	r.rule("R1 kind table: GetZeroValue defines one Go type per kind (and its pointer for nullable); GetAttrTypeString/GetAttrType are inverse and classify the %T spelling of each of the 28 types; scenario evaluation of Attr.UnmarshalToType for all 28 (kind, nullable) pairs shows every successful decode boxes exactly that type; SoftResource.Set's gate compares kind and nullability of fmt's %T of the value with the attribute")
 	r.rule("R2' integer width: the bit size given to the strconv parser for kind K is at least the width of K's Go type (on the GOARCH under analysis), so no representable value is rejected; the parser's signedness matches")
 	r.rule("C01.marshal-plumbing: MarshalResource stores under \"id\" the resource's Get(\"id\"), under \"type\" its GetType().Name, under each selected attribute's name the unmodified result of Get(that name), and builds each relationship identifier from Get(rel.FromName) (the string, or each element of the []string) and rel.ToType")
+	r.rule("C01.nullness / C01.decoded-value (scenario evaluation of Attr.UnmarshalToType, 28 scenarios): on every successful path on which the raw value is not the literal null the result is not the kind's nil pointer, and for string, time and bytes kinds it is the variable encoding/json decoded the raw bytes into")
 	r.rule("C01.unmarshal-plumbing: UnmarshalResource sets the id as decoded, each attribute from UnmarshalToType's result for that attribute, each relationship from its decoded linkage (declared per iteration) in payload order, and calls Set nowhere else")
 	r.rule("R5 tags: every member MarshalResource writes that carries resource state (id, type, attributes, relationships; data; identifier id/type) has a same-named json tag on the skeleton struct UnmarshalResource decodes into")
 	r.assume("encoding/json, strconv, time and encoding/base64 invert each other on every value of the 28 types (strings with HTML specials, sub-second zoned times, uint64 > 2^63): standard-library contracts; reflect.Value.Set stores the value it is given")
@@ -66,6 +69,39 @@ func checkC01(p *Prog, r *Report) {
 			}
 		}
 		r.floor("integer width scenarios", n, 20)
+		// null-ness and value provenance for every kind: on a path where the
+		// raw value is not the literal null, the result is never the kind's nil
+		// pointer, and for string/time/bytes it is the variable encoding/json
+		// decoded into
+		nv := 0
+		for _, row := range kt.rows {
+			bt, isBasic := row.Go.Underlying().(*types.Basic)
+			for _, nullable := range []bool{false, true} {
+				key := fmt.Sprintf("UnmarshalToType:%s:nullable=%v", row.Name, nullable)
+				for _, o := range kt.decodeOutcomes(row.Val, nullable) {
+					if o.isNull == "true" {
+						continue
+					}
+					nv++
+					isNil := o.val != nil && ((o.val.k == aIface && o.val.dyn != nil && o.val.dyn.k == aNil) || o.val.k == aNil)
+					r.decide(!isNil, "C01.nullness", key, p.pos(f.Pos()), "a value other than null never decodes to nil", "a value other than the literal null decodes to nil for kind "+row.Str+": a non-null value does not survive the round trip")
+					if isNil || (isBasic && (bt.Info()&types.IsInteger != 0 || bt.Info()&types.IsBoolean != 0)) {
+						continue
+					}
+					good := false
+					for _, c := range o.calls {
+						if strings.HasPrefix(c, "encoding/json.Unmarshal(data, &") {
+							v := strings.TrimSuffix(strings.TrimPrefix(c, "encoding/json.Unmarshal(data, &"), ")")
+							if strings.Contains(o.term, "&"+v) || strings.Contains(o.val.String(), "&"+v) {
+								good = true
+							}
+						}
+					}
+					r.decide(good, "C01.decoded-value", key, p.pos(f.Pos()), "the result is the variable encoding/json decoded the raw bytes into", "the stored value is not the variable encoding/json decoded the raw bytes into: "+o.term)
+				}
+			}
+		}
+		r.floor("value decode scenarios", nv, 28)
 	}
 
 	checkMarshalPlumbing(p, r, "C01")
